@@ -143,15 +143,21 @@ macro_rules! gen_fields {
             pub mod $id {
                 use super::*;
                 pub type DT = dfs::$id::DataType;
+                /// decode the pattern, encode the result over a buffer pre-filled with 0xFF for even and 0x00 for odd
+                /// patterns (an encoder must set the field's bits whatever was there before)
                 #[inline(always)]
                 pub fn rt(p: u64) -> Rt {
+                    rt_bg(p, if p & 1 == 0 { 0xFF } else { 0x00 })
+                }
+                #[inline(always)]
+                pub fn rt_bg(p: u64, bg: u8) -> Rt {
                     let inb = pat_to_buf(p, $len);
                     let mut par = Parser::new(&inb, 0);
                     let v: DT = match dfs::$id::decode(&mut par) {
                         Ok(v) => v,
                         Err(_) => return Rt { ok: false, out: 0, offset: 0, absent: false, finite: false },
                     };
-                    let mut outb = [0u8; 16];
+                    let mut outb = [bg; 16];
                     let mut asm = Assembler::new(&mut outb, 0);
                     let ok = dfs::$id::encode(&mut asm, &v).is_ok();
                     let offset = asm.offset();
@@ -161,7 +167,14 @@ macro_rules! gen_fields {
                     let neg_zero: u64 = 1u64 << ($len - 1);
                     let mut p = lo;
                     while p < hi {
-                        let r = rt(p);
+                        let mut r = rt(p);
+                        // the extreme patterns over both backgrounds
+                        if p == 0 || p == neg_zero || p == (neg_zero - 1) | neg_zero || p == neg_zero - 1 {
+                            let r2 = rt_bg(p, if p & 1 == 0 { 0x00 } else { 0xFF });
+                            if r2.out != r.out || r2.ok != r.ok {
+                                r.ok = false;
+                            }
+                        }
                         acc.patterns += 1;
                         if r.absent {
                             acc.absent += 1;
